@@ -465,4 +465,17 @@ def add_cf_from_ioapi(ifileo, coordkeys=[]):
     else:
         raise TypeError(f'PNC IOAPI aware of {_gdnames}; got {ifileo.GDTYP}')
 
+    # synthesized coordinates are not data: exclude them from file
+    # arithmetic and masking like other coordinate variables
+    cfcoordkeys = [
+        ck for ck in (
+            'time', 'time_bounds', 'layer', 'level', 'x', 'y', 'latitude',
+            'longitude', 'latitude_bounds', 'longitude_bounds'
+        ) if ck in ifileo.variables.keys()
+    ]
+    try:
+        ifileo.setCoords(cfcoordkeys)
+    except Exception:
+        pass
+
     ifileo.Conventions = 'CF-1.6'
